@@ -122,7 +122,7 @@ def moves_only(line):
     if line is None or "moves=" not in line:
         return line
     head, mv = line.split("moves=", 1)
-    names = sorted(x.split("=")[0] for x in mv.split(",") if x)
+    names = sorted(x.split("=")[0] for x in mv.split(",") if re.match(r"^[a-h][1-8][a-h][1-8][qrbn]?=", x))
     m = re.search(r"chk=\S+", head)
     return "gen %s moves=%s" % (m.group(0) if m else "", ",".join(names))
 
@@ -553,7 +553,7 @@ def root_legal_moves(fens):
     for l in res:
         if l.startswith("S "):
             mv = l.split("moves=")[-1] if "moves=" in l else ""
-            out.append(set(x.split("=")[0] for x in mv.split(",") if x))
+            out.append(set(x.split("=")[0] for x in mv.split(",") if re.match(r"^[a-h][1-8][a-h][1-8][qrbn]?=", x)))
     return out
 
 
@@ -730,23 +730,23 @@ def run_c18(o, tier, rng, prep):
     o.oblige("info lines on the real binary's stdout (%d timed searches)" % len(bb), ok)
 
 
-@prop("C12", "C12.v", ["C12_oracle_ordering_is_a_sorted_permutation", "C12_spec_repetition_is_draw", "C12_spec_no_move_is_mate_or_stalemate"])
-def run_c12(o, tier, rng, prep):
-    pos = small_positions(rng, 40 if tier == "quick" else 600, max_pieces=9)
-    pos = pos[: (24 if tier == "quick" else 400)]
-    budget = 6000 if tier == "quick" else 30000
-    cases = []
-    for start, moves, fen in pos:
-        cases.append("search\t%s\t%d" % (pos_cmd(start, moves), budget))    # with its game history
-        cases.append("search\tposition fen %s\t%d" % (fen, budget))          # without history
-    res = V.run_cases(cases)
-    mm, _ = V.compare(res, use_spec=False)
-    o.evaluations += len(res)
-    o.traces += len(res)
-    o.oblige("search model = implementation node for node on %d searches" % len(res), not mm)
-    for r in mm[:3]:
-        o.violation("corr", "search correspondence broken on %s: %s" % (r["case"][:160], V.first_diff(r.get("I"), r.get("M"))),
-                    {"correspondence": "search", "case": r["case"], "impl": r.get("I"), "model": r.get("M")})
+UNDERPROMOTION_FENS = [
+    "8/5P1k/5K2/8/8/8/8/8 w - - 0 1",            # f8=Q is stalemate, f8=R wins
+    "8/8/8/8/8/5k2/5p1K/8 b - - 0 1",            # mirror of it for black
+    "6k1/5P2/6K1/8/8/8/8/8 b - - 0 1",
+    "8/k1P5/8/1K6/8/8/8/8 w - - 0 1",            # c8=Q stalemate? c8=R wins
+    "8/2P1k3/8/8/8/8/8/K2q4 w - - 0 1",
+    "5k2/3P1P2/4K3/8/8/8/8/8 w - - 0 1",
+    "r5k1/5p1p/5Bp1/8/8/4Q3/5p1K/8 w - - 0 1",  # only ...f1=N+ defends (minimised witness of a seeded change)
+    "8/8/8/8/8/1k6/p7/K7 b - - 0 1",
+    "n1n5/PPPk4/8/8/8/8/4Kppp/5N1N b - - 0 1",
+    "8/PPP4k/8/8/8/8/4Kppp/8 w - - 0 1",
+    "4k3/P6P/8/8/8/8/p6p/4K3 w - - 0 1",
+]
+
+
+def judge_against_minimax(o, cases, res):
+    """final score and first pv move of every completed depth 1..3 against the extracted negamax oracle"""
     ocases = ["oracle\t%s\t3" % c.split("\t")[1] for c in cases]
     ores = V.run_sharded([V.DRIVER, V.ZDUMP], ocases)
     oracle = [l[2:] for l in ores if l.startswith("S ")]
@@ -774,12 +774,67 @@ def run_c12(o, tier, rng, prep):
                     ok = False
                     o.violation("input", "depth %d: engine reports %s via %s, minimax value is %s attained by %s: %s" % (
                         dd, score, first, m.group(1), m.group(2), r["case"]), {"case": r["case"], "engine": per_depth, "oracle": orc})
+    return ok, judged
+
+
+def impl_only(cases):
+    hout = V.run_sharded([V.HARNESS], cases)
+    res = [dict(case=c) for c in cases]
+    i = -1
+    for l in hout:
+        if l[:1] == "I":
+            i += 1
+        if 0 <= i < len(res) and l[:1] in "IO":
+            res[i][l[:1]] = l[2:]
+    return res
+
+
+@prop("C12", "C12.v", ["C12_oracle_ordering_is_a_sorted_permutation", "C12_spec_repetition_is_draw", "C12_spec_no_move_is_mate_or_stalemate"])
+def run_c12(o, tier, rng, prep):
+    pos = small_positions(rng, 40 if tier == "quick" else 600, max_pieces=9)
+    pos = pos[: (24 if tier == "quick" else 400)]
+    budget = 6000 if tier == "quick" else 30000
+    cases = []
+    for start, moves, fen in pos:
+        cases.append("search\t%s\t%d" % (pos_cmd(start, moves), budget))    # with its game history
+        cases.append("search\tposition fen %s\t%d" % (fen, budget))          # without history
+    for f, n, _ in gens.filter_legal(UNDERPROMOTION_FENS):
+        if n > 0:
+            cases.append("search\tposition fen %s\t%d" % (f, budget))
+    # histories with repetitions: a drawing repetition move at the horizon
+    for start, cyc in (("q7/8/2k5/8/8/8/8/7K w - - 0 1", ["h1g1", "a8b8", "g1h1", "b8a8"]),
+                       ("6k1/8/8/8/8/8/8/K2Q4 w - - 0 1", ["d1d2", "g8h8", "d2d1", "h8g8"])):
+        for reps in (1, 2):
+            for cut in range(4):
+                cases.append("search\t%s\t%d" % (pos_cmd(start, cyc * reps + cyc[:cut]), budget))
+    res = V.run_cases(cases)
+    mm, _ = V.compare(res, use_spec=False)
+    o.evaluations += len(res)
+    o.traces += len(res)
+    o.oblige("search model = implementation node for node on %d searches" % len(res), not mm)
+    for r in mm[:3]:
+        o.violation("corr", "search correspondence broken on %s: %s" % (r["case"][:160], V.first_diff(r.get("I"), r.get("M"))),
+                    {"correspondence": "search", "case": r["case"], "impl": r.get("I"), "model": r.get("M")})
+    ok, judged = judge_against_minimax(o, cases, res)
+    if mm and ok:
+        # the correspondence broke: hunt for a position where the reported value is not the minimax value
+        hp = [f for f, n, _ in gens.filter_legal(gens.promotion_geometry(rng, 400) + gens.ep_geometry(rng, 150)) if n > 0
+              and sum(c.isalpha() for c in f.split(" ")[0]) <= 9][:160]
+        more = small_positions(rng, 120, max_pieces=8)[:120]
+        hcases = ["search\tposition fen %s\t%d" % (f, 8000) for f in hp] + \
+                 ["search\t%s\t%d" % (pos_cmd(s_, m_), 8000) for s_, m_, _ in more]
+        hres = impl_only(hcases)
+        ok2, j2 = judge_against_minimax(o, hcases, hres)
+        o.evaluations += len(hres)
+        hist_add(o, "hunt: searches judged after the correspondence broke", len(hres))
+        ok = ok and ok2
+        judged += j2
     o.distinct += judged
     hist_add(o, "depth-results judged against the minimax oracle", judged)
     o.oblige("reported score = minimax value and selected move attains it, depths 1-3 (%d depth results)" % judged, ok)
     for r in res[:3]:
         o.samples.append(r["case"])
-    o.rule = "legal non-terminal positions with <= 9 pieces from specification-generated games, each searched with its game history in the repetition record and without; final score and first PV move of every completed depth 1..3 judged against the extracted plain alpha-beta negamax over the model's generator/evaluation; non-trivial = one judged depth result"
+    o.rule = "legal non-terminal positions with <= 9 pieces from specification-generated games, each searched with its game history in the repetition record and without, plus under-promotion/stalemate positions and shuffle histories offering a repetition at the horizon; final score and first PV move of every completed depth 1..3 judged against the extracted plain alpha-beta negamax over the model's generator/evaluation; non-trivial = one judged depth result"
 
 
 def blackbox_searches(o, tier, rng, slices, n):
@@ -1210,9 +1265,57 @@ def run_c03(o, tier, rng, prep):
         eng.close()
     o.distinct += chains
     o.oblige("exactly one legal, well-formed bestmove per go, along go chains, on the real binary (%d go commands)" % o.evaluations, ok)
+    ok2 = go_chain_corpus(o, tier, rng)
+    o.oblige("go chains through promotion, castling and en passant (fields inherited from the previous answer)", ok2)
     session_model_corr(o, tier, rng)
     o.rule = "sessions on the real binary: positions set by startpos/FEN plus legal move lists from specification-generated games, go with clocks from {none, zero, negative, tiny, increment only, movestogo 1..2^32-1, unknown tokens}, chains of 1-3 go commands without a new position; each bestmove judged by the specification's legal move list of the position reached; non-trivial = one judged answer"
     o.assumptions.append("thread interleavings are sampled on the real binary; the model proves the protocol logic for every (expiry index, pick) schedule")
+
+
+GO_CHAIN_FENS = [
+    # the first answer is (almost certainly) a promotion, the reply castling: the answer's text must not inherit a letter
+    "2b1k2r/P3pppp/8/8/8/8/8/4K3 w k - 0 1",
+    "r3k1b1/pppp3P/8/8/8/8/8/4K3 w q - 0 1",
+    "4k3/8/8/8/8/8/p3PPPP/2B1K2R b K - 0 1",
+    "4k3/8/8/8/8/8/PPPP3p/R3K1B1 b Q - 0 1",
+    "r3k2r/P6P/8/8/8/8/8/4K3 w kq - 0 1",
+    # double step then en passant by the engine itself
+    "4k3/8/8/8/1p6/8/P7/4K3 w - - 0 1",
+    "4k3/p7/8/1P6/8/8/8/4K3 b - - 0 1",
+]
+
+
+def go_chain_corpus(o, tier, rng):
+    import blackbox
+    ok = True
+    legal0 = gens.filter_legal(GO_CHAIN_FENS)
+    for fen, n, _ in legal0:
+        for go in ("go", "go wtime 160 btime 160 movestogo 1"):
+            eng = blackbox.Engine(V.BINARY)
+            try:
+                eng.handshake()
+                cmd = "position fen " + fen
+                eng.send(cmd)
+                cur_cmd = cmd
+                cur_legal = root_legal_moves([fen])[0]
+                for step in range(3):
+                    if not cur_legal:
+                        break
+                    eng.send(go)
+                    lines = eng.read_until(lambda l: l.startswith("bestmove"), timeout=10)
+                    o.evaluations += 1
+                    case = "%s | %s (go #%d of a chain)" % (cmd, go, step + 1)
+                    if lines[-1] is None or not judge_bestmove(o, case, lines[-1], cur_legal, False):
+                        ok = False
+                        break
+                    mv = lines[-1].split(" ")[1]
+                    sep = " " if " moves " in cur_cmd else " moves "
+                    cur_cmd = cur_cmd + sep + mv
+                    cur_legal = root_legal_moves([proj_to_fen(legal_after([cur_cmd])[0])])[0]
+                    hist_add(o, "go-chain answers judged")
+            finally:
+                eng.close()
+    return ok
 
 
 def session_model_corr(o, tier, rng):
@@ -1372,6 +1475,39 @@ def run_c16(o, tier, rng, prep):
         finally:
             fresh.close()
             used.close()
+    # the repetition record must not survive a `position` command, with or without a move list:
+    # earlier traffic repeats positions that are one move away from the probed (bare) position
+    rep_probes = [
+        ("4k3/8/8/3q4/8/8/PPP5/2KR4 w - - 0 1", ["d1d5", "e8e7", "c1d1", "e7e8", "d1c1", "e8e7", "c1d1", "e7e8", "d1c1"]),
+        ("q7/8/2k5/8/8/8/8/7K w - - 0 1", ["h1g1", "a8b8", "g1h1", "b8a8", "h1g1", "a8b8", "g1h1", "b8a8"]),
+        ("6k1/8/8/8/8/8/8/K2Q4 w - - 0 1", ["d1d2", "g8h8", "d2d1", "h8g8", "d1d2", "g8h8", "d2d1", "h8g8"]),
+        (gens.START, ["g1f3", "g8f6", "f3g1", "f6g8", "g1f3", "g8f6", "f3g1", "f6g8"]),
+    ]
+    okr = True
+    for fen, shuffle in rep_probes:
+        bare = "position startpos" if fen == gens.START else "position fen " + fen
+        fresh = blackbox.Engine(V.BINARY)
+        used = blackbox.Engine(V.BINARY)
+        try:
+            fresh.handshake()
+            used.handshake()
+            reply(used, pos_cmd(fen, shuffle), "go wtime 130 btime 130 movestogo 1")
+            used.send("ucinewgame")
+            go = "go wtime 200 btime 200 movestogo 1"
+            ia = improvements(reply(fresh, bare, go))
+            ib = improvements(reply(used, bare, go))
+            o.evaluations += 2
+            k = min(len(ia), len(ib))
+            if k == 0 or ia[:k] != ib[:k]:
+                okr = False
+                j = next((x for x in range(k) if ia[x] != ib[x]), 0)
+                o.violation("input", "after a game with repetitions the reply to a bare `%s` differs from a fresh engine's at improvement %d: fresh %s, used %s" % (
+                    bare, j, ia[j] if j < len(ia) else None, ib[j] if j < len(ib) else None), {"traffic": pos_cmd(fen, shuffle), "probe": bare, "fresh": ia, "used": ib})
+            o.distinct += 1
+        finally:
+            fresh.close()
+            used.close()
+    o.oblige("a bare position command after a game with repetitions is answered like a fresh engine (repetition record reset)", okr)
     o.oblige("zero-allowance bestmove identical to a fresh engine's after arbitrary traffic; repeat gives the same (%d probes)" % len(probes), ok)
     o.oblige("timed improvements (depth, nodes, score, first pv move) identical up to the shorter run", okt)
     o.rule = "probe positions from specification-generated games, each asked of a fresh process and of a process that first served 2-6 items of traffic (games, timed and zero searches, ucinewgame, setoption, garbage); zero allowance compared exactly, 48 ms searches compared as prefixes; non-trivial = one probe"
@@ -1398,6 +1534,42 @@ def run_c17(o, tier, rng, prep):
             okc = False
             o.violation("input", "clean_input(%r) is not the line's words joined by single spaces" % s, {"case": r["case"], "impl": got, "expected": want})
     o.oblige("clean_input = words joined by single spaces (Unicode White_Space)", okc)
+    # unknown tokens inside go (at non-value positions) leave the parsed parameters unchanged
+    unknown = ["ponder", "infinite", "searchmoves", "e2e4", "depth", "nodes", "mate", "movetime", "xyzzy", "żółć", "5", "-7"]
+    gcases = []
+    for _ in range(150 if tier == "quick" else 5000):
+        vals = {k: rng.choice([0, 1, 99, 100, 101, 5000, 60000, -3, 2 ** 40]) for k in ("wtime", "btime", "winc", "binc")}
+        keys = [k for k in vals if rng.random() < 0.8]
+        rng.shuffle(keys)
+        toks = ["go"]
+        for k in keys:
+            toks += [k, str(vals[k])]
+        if rng.random() < 0.5:
+            toks += ["movestogo", str(rng.choice([1, 2, 30, 40]))]
+        clean = " ".join(toks)
+        noisy = ["go"]
+        i = 1
+        while i < len(toks):
+            for _ in range(rng.choice([0, 0, 1, 1, 2, 3])):
+                noisy.append(rng.choice(unknown))
+            noisy += toks[i:i + 2]
+            i += 2
+        for _ in range(rng.choice([0, 1, 2])):
+            noisy.append(rng.choice(unknown))
+        side = rng.choice("wb")
+        gcases.append("slice\t%s\t%s" % (clean, side))
+        gcases.append("slice\t%s\t%s" % (" ".join(noisy), side))
+    gres = V.run_cases(gcases)
+    gmm, _ = V.compare(gres, use_spec=False)
+    report(o, "go parsing with unknown tokens at non-value positions", gres, gmm, [], nontrivial=lambda r: True)
+    okg = True
+    for i in range(0, len(gres), 2):
+        a, b = gres[i].get("I"), gres[i + 1].get("I")
+        if a != b or a is None or a == "slice Panic":
+            okg = False
+            o.violation("input", "unknown tokens inside go change what is parsed: %r gives %s, %r gives %s" % (
+                gres[i]["case"], a, gres[i + 1]["case"], b), {"clean": gres[i]["case"], "noisy": gres[i + 1]["case"], "parsed_clean": a, "parsed_noisy": b})
+    o.oblige("unknown tokens inside go are ignored: same parsed clocks and time slice", okg)
     # sessions with garbage on the real binary
     ok = True
     nsess = 6 if tier == "quick" else 60
